@@ -119,8 +119,8 @@ def gen_paxbody_cases(rng, tier):
                 if rng.random() < 0.75:
                     name = bytes(rng.choice(b'abcXYZ.-_%/ ') for _ in range(rng.choice([1, 2, 10, 60, 127, 128, 128, 129 if rng.random() < 0.2 else 100])))
                     key = b'SCHILY.xattr.' + name
-                else:       # a key the reader does not know, up to what the 512-byte look-ahead holds
-                    key = b'verif.' + bytes(rng.choice(b'abcXYZ.-_%/ ') for _ in range(rng.choice([1, 40, 200, 480, 487, 495])))
+                else:       # a key the reader does not know, on both sides of its initial 512-byte look-ahead
+                    key = b'verif.' + bytes(rng.choice(b'abcXYZ.-_%/ ') for _ in range(rng.choice([1, 40, 200, 480, 495, 499, 500, 501, 505, 506, 512, 600, 1017, 1023, 1500, 2000])))
                 vl = rng.choice([0, 1, 2, 8, 80, 85, 86, 87, 95, 500, 985, 990, 3000])
                 val = bytes(rng.choice([10, 61, 0, 32, 48, 255, 97]) if rng.random() < 0.5 else rng.randrange(256) for _ in range(vl))
                 recs.append(pax_record(key, val))
